@@ -265,6 +265,106 @@ class Decl:
                 if rng.random() < 0.2:
                     out.append("    %s.flush();" % expr)
                     pend = {}
+        # threaded phase (auto-flush only): the delegator is shared, every thread gets its own thread-local
+        # inner struct; a thread sees only what it has pending itself and its flush delivers exactly that
+        if self.auto_flush and rng.random() < 0.6:
+            all_leaves = self.leaves()
+            nthreads = rng.randint(2, 4)
+            storm_rounds = rng.choice([8, 25, 60])
+            out.append("    let gate = std::sync::Barrier::new(%d);" % nthreads)
+            out.append("    let storm = std::sync::atomic::AtomicUsize::new(0);")
+            out.append("    std::thread::scope(|s| {")
+            out.append("        let m = &m;")
+            out.append("        let gate = &gate;")
+            out.append("        let storm = &storm;")
+            out.append("        let mut hs = Vec::new();")
+            for t in range(nthreads):
+                out.append("        hs.push(s.spawn(move || -> Vec<String> {")
+                out.append("            let mut errs: Vec<String> = Vec::new();")
+                tp = {}
+                chosen = rng.sample(all_leaves, min(len(all_leaves), rng.randint(1, 4)))
+                if rng.random() < 0.75:
+                    chosen[0] = all_leaves[0]  # several threads meet on one leaf
+                for idents, tup in chosen:
+                    leaf = tuple(idents)
+                    key = tuple(tup)
+                    plain = "m." + ".".join(idents)
+                    for rep in range(rng.randint(1, 3)):
+                        e = "m"
+                        for (lkey, ei, vals), ident in zip(self.labels, idents):
+                            if ei is not None and rng.random() < 0.5:
+                                e += ".get(%s::%s)" % (self.enums[ei][0], ident)
+                            else:
+                                e += "." + ident
+                        amount = rng.randint(1, 1 << 20)
+                        out.append("            " + self.update_code(e, amount))
+                        s0, c0 = expected.get(key, (0, 0))
+                        expected[key] = (s0 + amount, c0 + 1)
+                        pa, pc_ = tp.get(leaf, (0, 0))
+                        tp[leaf] = (pa + amount, pc_ + 1)
+                        npaths += 1
+                    if base != "Histogram":
+                        pending = 0 if self.zero_interval else tp[leaf][0]
+                        out.append("            if %s.get() != %s { errs.push(format!(\"thread %d: %s.get() = {:?}, this thread has %s pending\", %s.get())); }" % (plain, num(pending), t, plain, num(pending), plain))
+                    else:
+                        pc = 0 if self.zero_interval else tp[leaf][1]
+                        out.append("            if %s.get_sample_count() != %d { errs.push(format!(\"thread %d: %s.get_sample_count() = {}, this thread has %d observations pending\", %s.get_sample_count())); }" % (plain, pc, t, plain, pc, plain))
+                    if rng.random() < 0.3:
+                        out.append("            %s.flush();" % plain)
+                        if base != "Histogram":
+                            tp = {}  # a counter handle flushes the whole tree of this thread
+                            out.append("            if %s.get() != %s { errs.push(format!(\"thread %d: %s.get() = {:?} right after its flush()\", %s.get())); }" % (plain, num(0), t, plain, plain))
+                        else:
+                            tp[leaf] = (0, 0)
+                            out.append("            if %s.get_sample_count() != 0 { errs.push(format!(\"thread %d: %s.get_sample_count() = {} right after its flush()\", %s.get_sample_count())); }" % (plain, t, plain, plain))
+                # every thread has updated before any thread flushes, and the flushes start together; half of
+                # the threads flush through the leaf handles (a counter handle flushes the thread's whole tree,
+                # a histogram handle its own leaf), the others through the struct
+                out.append("            gate.wait();")
+                touched = []
+                for idents, _ in chosen:
+                    if idents not in touched:
+                        touched.append(idents)
+                if rng.random() < 0.5:
+                    out.append("            m.flush();")
+                elif base != "Histogram":
+                    out.append("            %s.flush();" % ("m." + ".".join(touched[0])))
+                else:
+                    for idents in touched:
+                        out.append("            %s.flush();" % ("m." + ".".join(idents)))
+                for idents in touched:
+                    plain = "m." + ".".join(idents)
+                    if base != "Histogram":
+                        out.append("            if %s.get() != %s { errs.push(format!(\"thread %d: %s.get() = {:?} after flush()\", %s.get())); }" % (plain, num(0), t, plain, plain))
+                    else:
+                        out.append("            if %s.get_sample_count() != 0 { errs.push(format!(\"thread %d: %s.get_sample_count() = {} after flush()\", %s.get_sample_count())); }" % (plain, t, plain, plain))
+                # flush storm: all threads update one leaf, meet at a spin barrier and flush through the same
+                # leaf handle at the same moment, round after round; every flush must empty the caller's own tree
+                idents0, tup0 = all_leaves[0]
+                plain0 = "m." + ".".join(idents0)
+                key0 = tuple(tup0)
+                amount = rng.randint(1, 1 << 16)
+                out.append("            for round in 0..%d_usize {" % storm_rounds)
+                out.append("                " + self.update_code(plain0, amount))
+                out.append("                storm.fetch_add(1, std::sync::atomic::Ordering::SeqCst);")
+                out.append("                let mut sp = 0u32;")
+                out.append("                while storm.load(std::sync::atomic::Ordering::SeqCst) < %d * (round + 1) { sp += 1; if sp %% 64 == 0 { std::thread::yield_now(); } std::hint::spin_loop(); }" % nthreads)
+                out.append("                %s.flush();" % plain0)
+                if base != "Histogram":
+                    out.append("                if %s.get() != %s && errs.len() < 3 { errs.push(format!(\"thread %d, storm round {}: %s.get() = {:?} right after its flush()\", round, %s.get())); }" % (plain0, num(0), t, plain0, plain0))
+                else:
+                    out.append("                if %s.get_sample_count() != 0 && errs.len() < 3 { errs.push(format!(\"thread %d, storm round {}: %s.get_sample_count() = {} right after its flush()\", round, %s.get_sample_count())); }" % (plain0, t, plain0, plain0))
+                out.append("            }")
+                s0, c0 = expected.get(key0, (0, 0))
+                expected[key0] = (s0 + amount * storm_rounds, c0 + storm_rounds)
+                npaths += 1
+                out.append("            errs")
+                out.append("        }));")
+            out.append("        for h in hs { for e in h.join().unwrap() { r.fail(%d, \"auto-flush-local-get-wrong\", e); } }" % self.idx)
+            out.append("    });")
+            out.append("    r.part.count(\"auto_flush_threads\", %d);" % nthreads)
+            out.append("    r.part.count(\"programs_with_threaded_phase\", 1);")
+            out.append("    r.part.count(\"flush_storm_rounds\", %d);" % storm_rounds)
         # undeclared values
         if not self.auto_flush:
             e = "m"
